@@ -11,10 +11,11 @@ import Imeta.Driver.Hash
 import Imeta.Driver.Jpeg
 import Imeta.Driver.Exif
 import Imeta.Driver.Png
+import Imeta.Driver.Bufio
 open Imeta
 
 def handlers : List (List String → Option String) :=
-  [Tiff.handle, ImageType.handle, EnumsDrv.handle, CodecDrv.handle, HashDrv.handle, JpegDrv.handle, ExifDrv.handle, PngDrv.handle]
+  [Tiff.handle, ImageType.handle, EnumsDrv.handle, CodecDrv.handle, HashDrv.handle, JpegDrv.handle, ExifDrv.handle, PngDrv.handle, BufioDrv.handle]
 
 def dispatch (line : String) : String :=
   let toks := (line.trimAscii.toString.splitOn " ").filter (· ≠ "")
